@@ -43,14 +43,7 @@ func h2Main(env *Env, c *H2Cfg, sh *h2Shared) {
 	pm := workers.New(c.MaxIterations, as)
 	pool := pm.NewTriggerPool(c.Concurrency)
 	ctx, cancel := context.WithCancel(context.Background())
-	doCancel := func() {
-		if !sh.cancelled {
-			sh.cancelled = true
-			sh.cancelNs, sh.cancelSeq = env.Sim.Now(), env.Sim.Step()
-			env.Sim.Log("cancel", 0, 0, "")
-		}
-		cancel()
-	}
+	doCancel := func() { atomicCancel(env, &sh.cancelled, &sh.cancelNs, &sh.cancelSeq, cancel) }
 	workerCtx := pool.Start(ctx)
 	sh.startNs = env.Sim.Now()
 	if c.CancelAtNs > 0 {
